@@ -1,6 +1,9 @@
 package bt
 
-import "encoding/binary"
+import (
+	"encoding/binary"
+	"io"
+)
 
 // ReverseBytes reverses the bytes (little endian/big endian).
 // This is used when computing merkle trees in Bitcoin, for example.
@@ -21,4 +24,38 @@ func LittleEndianBytes(v uint32, l uint32) []byte {
 	binary.LittleEndian.PutUint32(buf, v)
 
 	return buf
+}
+
+// readChunkSize is the most that readBytes allocates before any data has been read.
+const readChunkSize = 4096
+
+// readBytes reads exactly l bytes from r, returning them with the number of bytes read.
+// The length l comes from untrusted input, so the buffer is grown as the data arrives
+// rather than being allocated up front: the memory used is bound by the bytes the
+// reader actually supplies. On a short read the error is io.EOF if nothing was read,
+// otherwise io.ErrUnexpectedEOF, as with io.ReadFull.
+func readBytes(r io.Reader, l uint64) ([]byte, int, error) {
+	if l <= readChunkSize {
+		b := make([]byte, l)
+		n, err := io.ReadFull(r, b)
+		return b, n, err
+	}
+
+	var b []byte
+	for uint64(len(b)) < l {
+		have := len(b)
+		chunk := l - uint64(have)
+		if chunk > uint64(have)+readChunkSize {
+			chunk = uint64(have) + readChunkSize
+		}
+		b = append(b, make([]byte, chunk)...)
+		n, err := io.ReadFull(r, b[have:])
+		if err != nil {
+			if err == io.EOF && have > 0 {
+				err = io.ErrUnexpectedEOF
+			}
+			return b[:have+n], have + n, err
+		}
+	}
+	return b, len(b), nil
 }
